@@ -175,7 +175,7 @@ Section SZ.
     apply fresh_covar_lz in Ha. pose proof (Hw _ _ _ _ Hs (cok_var _ _ _)) as Hi. cbn [cz_term] in *. lia.
   Qed.
 
-  (* the repaired placement of a continuation under binders (fix <commitcap>): < mu a. w(a) | cont > costs 3
+  (* the repaired placement of a continuation under binders (fix d5d4151): < mu a. w(a) | cont > costs 3
      more nodes than w(a), a being 1 node *)
   Lemma sz_guard : forall binders (w : cterm -> M cstmt) lty X,
     (forall cont st s st', w cont st = Ok (s, st') -> cok cont -> zs s + lz st' + 2 + 3 <= lz st + X + zt cont) ->
